@@ -1282,6 +1282,9 @@ func (c *FnCtx) monitorAcquire(p *Path, key string, m Val) {
 		}
 	}
 	for _, cl := range mon.Rely {
+		if c.mode != "mon" {
+			break // sequential proofs know the state at acquisition from the precondition
+		}
 		t, ok := c.evalClause(ec, cl, "monitor rely "+key)
 		if ok {
 			p.assume(t)
